@@ -154,7 +154,7 @@ Definition view_agrees (w : world) (ob : lobs) : bool :=
 (* initial world from the first observation: every copy starts with an empty scrape window *)
 Definition sstat_of (c : cstat) : sstat :=
   {| ss_state := c_state c; ss_health := c_health c; ss_series := c_series c; ss_total := c_total c; ss_times := c_times c;
-     ss_window := []; ss_err := false |}.
+     ss_window := []; ss_err := false; ss_last := None |}.
 Definition shard_of_obs (tru : amap truth) (ob : lshard_obs) : wshard :=
   let idle := match lo_idle ob with Some age => Some (0 - age) | None => None end in
   (* what the sidecar was asked to hold (and has stored), grouped by job *)
